@@ -80,12 +80,17 @@ def oracle(t):
     fvs, lihd, bs = (t["fvs"], t["lihd"], t["bs"]) if t["same_key"] else (False, False, False)
     if not t["visible"]:
         return "skip", (fvs, lihd, bs)
-    if t["ts"] == "above":
-        return "skip", (fvs, lihd, bs)
     if t["ts"] == "below":
         return "next_key", (fvs, lihd, bs)
     lihd1 = lihd or ((not fvs) and t["hd"])
     fvs1 = True
+    if t["ts"] == "above":
+        # a version newer than the window is not listed, but it is still a version of the key: a hard delete / replace
+        # above the window erases the older versions that lie inside the window (they are physically gone after the next
+        # compaction, so listing them makes the answer depend on compaction)
+        if lihd1 or bs:
+            return "skip", (fvs1, lihd1, bs)
+        return "skip", (fvs1, lihd1, bs or t["hd"] or t["rp"])
     if lihd1:
         return "skip", (fvs1, lihd1, bs)
     if bs:
@@ -111,7 +116,12 @@ def leaf_action(lf):
     return str(lf.outcome)
 
 
+ABOVE = {"bad": 0, "examples": []}
+
+
 def compare(cx, f):
+    ABOVE["bad"] = 0
+    ABOVE["examples"] = []
     b, leaves = extract(f)
     n = bad = 0
     examples = []
@@ -171,6 +181,16 @@ def compare(cx, f):
                     got_state.append(None)
             ok = (act == want_act) and tuple(got_state) == want_state
             if not ok:
+                if t["ts"] == "above":
+                    # only the observable part counts here: does the step leave the key in a state that hides older versions?
+                    hide_got = bool(got_state[1]) or bool(got_state[2])
+                    hide_want = want_state[1] or want_state[2]
+                    if act == want_act and hide_got == hide_want:
+                        continue
+                    ABOVE["bad"] += 1
+                    if len(ABOVE["examples"]) < 3:
+                        ABOVE["examples"].append({"inputs": t, "code": [act, got_state], "oracle": [want_act, list(want_state)]})
+                    continue
                 bad += 1
                 if len(examples) < 3:
                     examples.append({"inputs": t, "code": [act, got_state], "oracle": [want_act, list(want_state)]})
